@@ -156,6 +156,9 @@ type updateStats struct {
 	updates, compared, excluded, proofs int
 	withUpdatedLeaves, refreshed        int // fully compared updates: with rewritten leaves / that changed a held proof
 	reverts, attestations               int
+	reused                              int // updates additionally decoded into the variable that held the previous one
+	reAU                                consensus.ApplyUpdate
+	reRU                                consensus.RevertUpdate
 }
 
 type update interface {
@@ -254,6 +257,42 @@ func compareUpdate(where string, u update, fresh any, pre, post *sim.Store, acc 
 	if err := sim.EqualLists("tree node", treeNodeList(u), treeNodeList(u2)); err != nil {
 		return stats.Failf(key, "%s: ForEachTreeNode of the round-tripped update differs: %v", where, err)
 	}
+	// a subscriber's loop variable: the same JSON decoded into the variable that still holds the
+	// previous update of this history must give the same update
+	var re any
+	switch fresh.(type) {
+	case *consensus.ApplyUpdate:
+		re = &us.reAU
+	case *consensus.RevertUpdate:
+		re = &us.reRU
+	}
+	if re != nil {
+		rkey := "C20/update-json/reused-receiver"
+		if err := safeUnmarshal(js, re); err != nil {
+			return stats.Failf(rkey, "%s: json.Unmarshal into the variable holding the previous update failed: %v", where, err)
+		}
+		u3 := reflect.ValueOf(re).Elem().Interface().(update)
+		js3, err := safeMarshal(u3)
+		if err != nil {
+			return stats.Failf(rkey, "%s: json.Marshal of the update parsed into a reused variable failed: %v", where, err)
+		}
+		if !bytes.Equal(js, js3) {
+			return stats.Failf(rkey, "%s: the update parsed into the variable that held the previous update prints differently:\n first  %s\n second %s", where, clip(js), clip(js3))
+		}
+		b3 := pre.Clone()
+		if err := stats.Safe(rkey, func() error { return apply(b3, re) }); err != nil {
+			return stats.Failf(rkey, "%s: the store cannot be refreshed with the update parsed into a reused variable: %v", where, err)
+		}
+		if got3 := b3.Snapshot(true); !bytes.Equal(want, got3) {
+			return stats.Failf(rkey, "%s: elements refreshed by the update parsed into the variable that held the previous update differ from those refreshed by the original (- original, + reused): %s", where, sim.SnapshotDiff(want, got3))
+		}
+		if err := sim.EqualLists("tree node", treeNodeList(u), treeNodeList(u3)); err != nil {
+			return stats.Failf(rkey, "%s: ForEachTreeNode of the update parsed into a reused variable differs: %v", where, err)
+		}
+		if us.compared > 0 {
+			us.reused++
+		}
+	}
 	us.compared++
 	if class {
 		us.withUpdatedLeaves++
@@ -293,6 +332,7 @@ func (us *updateStats) report(rec *stats.Rec, fp uint64, extraLabels ...string) 
 	rec.Extra("updates-round-tripped", uint64(us.updates))
 	rec.Extra("updates-fully-compared", uint64(us.compared))
 	rec.Extra("updates-element-proofs-verified", uint64(us.proofs))
+	rec.Extra("updates-decoded-into-reused-variable", uint64(us.reused))
 }
 
 // ---------------------------------------------------------------- signed simulator chains
